@@ -8,6 +8,7 @@ import Pyunicorn.Lemmas.SurrogatesKernelW
 import Pyunicorn.Lemmas.SurrogatesObject
 import Pyunicorn.Lemmas.SurrogatesTies
 import Pyunicorn.Lemmas.SurrogatesMethod
+import Pyunicorn.Lemmas.SurrogatesCoupling
 import Pyunicorn.Generated.StructC15
 /-!
 # C15 — Surrogates preserve exactly what each method promises
@@ -49,7 +50,8 @@ Clauses of the statement and where they are:
   (`twins_scan_reads_rows`, `rp_twins_source_subscripts`: asymmetric matrices), whole methods
   (`twin_surrogates_loop_level_machine`, `rp_twin_surrogates_method`).
 * round 4: tie-order independence of the rank remapping (`remap_tie_order_independent`,
-  `remap_pairs_are_sorted_pairs`, `remap_comonotone`, `remap_unique_without_ties`);
+  `remap_pairs_are_sorted_pairs`, `remap_comonotone`, `remap_unique_without_ties`,
+  `model_ranks_are_a_rank_array`, `remap_equals_model_up_to_tie_order`, `remap_equals_model_without_ties`);
   `correlated_noise_surrogates` statement by statement as regenerated from the source
   (`fourier_method_body_covered`, `fourier_method_keeps_amplitudes`), the last `rfft` bin of an odd
   length (`last_bin_of_odd_length_is_not_nyquist`, `forcing_last_bin_real_changes_amplitude`);
@@ -678,6 +680,23 @@ theorem remap_tie_order_independent (row s : List Rat) (idx₁ idx₂ : List Nat
       (s.zip out₁).Perm (s.zip out₂) :=
   remap_tie_order_independent' row s idx₁ idx₂ hlen h₁ h₂
 
+/-- the model's own `s.argsort().argsort()` (stable merge sort, twice) is a rank array -/
+theorem model_ranks_are_a_rank_array (s : List Rat) : RankOf s (ranks s) := ranks_rankOf s
+
+/-- **model ↔ code under ties**: whatever rank array numpy returned, the output of the code and the
+output of the model `remap` have the same multiset of (ranked value, output value) pairs -/
+theorem remap_equals_model_up_to_tie_order (row s : List Rat) (idx : List Nat)
+    (hlen : s.length = row.length) (h : RankOf s idx) :
+    ∃ out out', gather (sortR row) idx = some out ∧ remap row s = some out' ∧
+      (s.zip out).Perm (s.zip out') :=
+  remap_tie_order_independent_model row s idx hlen h
+
+/-- … and without ties they are equal -/
+theorem remap_equals_model_without_ties (row s : List Rat) (idx : List Nat)
+    (hlen : s.length = row.length) (hs : s.Nodup) (h : RankOf s idx) :
+    gather (sortR row) idx = remap row s :=
+  remap_unique_of_nodup row s idx hlen hs h
+
 /-- both tie orders of `[1, 1, 0]` are rank arrays -/
 example : RankOf [1, 1, 0] [2, 1, 0] ∧ RankOf [1, 1, 0] [1, 2, 0] := by decide
 /-- … and ranking the larger value first is not -/
@@ -753,6 +772,34 @@ theorem forcing_last_bin_real_changes_amplitude {n : ℕ} [NeZero n] (hodd : n %
 example : ‖DFT.rfft (DFT.irfft (n := 3) (Function.update (fun _ => Complex.I) (3 / 2)
     ((((fun _ : ℕ => Complex.I) (3 / 2)).re : ℝ) : ℂ))) (3 / 2)‖ = 0 := by
   rw [forcing_last_bin_real_changes_amplitude (by decide) (by decide)]; simp
+
+/-! ### the Fourier surrogates of the pure-Python coupling class (`real(ifft(W))` of a full spectrum)
+
+`Model/SurrogatesCoupling.lean` (`cnsStep`, `cnsCalls`) follows `CouplingAnalysisPurePython.
+correlatedNoiseSurrogates` on the slices of the source; the DFT facts it rests on: -/
+
+/-- a Hermitian full spectrum survives `real(ifft(·))` followed by `fft` at **every** bin — why the
+mirrored negative frequencies must be the *frequency-reversed* conjugates (`numpy.fliplr`) -/
+theorem hermitian_spectrum_survives_real_ifft {n : ℕ} [NeZero n] (W : ZMod n → ℂ)
+    (hW : ∀ k, W (-k) = (starRingEnd ℂ) (W k)) :
+    ZMod.dft (fun t => ((realIfft W t : ℝ) : ℂ)) = W :=
+  dft_realIfft_of_hermitian W hW
+
+/-- without the symmetry the surrogate has the spectrum `(W(k) + conj W(-k)) / 2` — what the
+repaired `numpy.flipud` (node axis) version produced, amplitudes not kept -/
+theorem real_ifft_spectrum_general {n : ℕ} [NeZero n] (W : ZMod n → ℂ) (k : ZMod n) :
+    ZMod.dft (fun t => ((realIfft W t : ℝ) : ℂ)) k = (W k + (starRingEnd ℂ) (W (-k))) / 2 :=
+  dft_realIfft_general W k
+
+/-- one call on the memoised full FFT of a series of length 6 (multiplication by `i`): DC and
+Nyquist untouched, bins 1-2 rotated, bins 4-5 the reversed conjugates -/
+example : cnsStep (⟨fun _ => 0, fun _ => 1⟩ : Trig Int)
+    [(10, 0), (1, 2), (3, 4), (30, 0), (3, -4), (1, -2)] [7, 7]
+    = some [(10, 0), (-2, 1), (-4, 3), (30, 0), (-4, -3), (-2, -1)] := by decide +kernel
+
+/-- a wrong number of phases is a shape error -/
+example : cnsStep (⟨fun _ => 0, fun _ => 1⟩ : Trig Int)
+    [(10, 0), (1, 2), (3, 4), (3, -4), (1, -2)] [7] = none := by decide +kernel
 
 /-! ### `normalize_original_data` (exact arithmetic; `mean`, `std` as the method computes them are
 inputs: the theorems hold for whatever values they are given, the hypotheses say what they are) -/
